@@ -232,6 +232,40 @@ def drive_ws(r, P):
     return r.finish()
 
 
+def replay_generic(r, P, path):
+    """--replay for the properties driven by drive_ws: the recorded case is evaluated again on the current
+    tree (harness + Coq verdict, evidence file untouched).  Replays of the protocol-level parts (handler part,
+    line-end part, binary part: no single harness case) re-run the whole check, which repeats that part."""
+    from common_ws import evaluate
+    rp = json.load(open(path))
+    case = rp.get("case")
+    if isinstance(case, dict) and "steps" in case and hasattr(P, "MODULE") and not rp.get("part"):
+        proof_stage(r, getattr(P, "EXTRA_TARGETS", ()))
+        stdlib = set(core.tables()["stdlib_modules"])
+        h1, _ = core.build_harness()
+        case = dict(case)
+        case.setdefault("id", 0)
+        meta = evaluate(r, P.PID + "_replay", P.MODULE, P.VERDICT, [case], stdlib, h1, getattr(P, "to_coq", None))
+        m = meta[case["id"]]
+        if m.get("hang"):
+            print("replay: the case outruns the harness watchdog")
+            print("VIOLATION property=%s replay=%s" % (P.PID, path))
+            return 1
+        listed = listed_classes(P.PID, P.CLASS_BITS)
+        corr, prop, known, mb = classify(m["codes"], listed.keys())
+        if m["panics"]:
+            prop = prop + ["panic@%d" % i for i, _ in m["panics"]]
+        for s_ in [x for x in prop if isinstance(x, int)][:10]:
+            print("replay: step %d %s -> %s" % (s_, json.dumps(case["steps"][s_])[:300], json.dumps(m["obs"][s_])[:300]))
+        if prop or corr:
+            print("VIOLATION property=%s replay=%s%s" % (P.PID, path, "" if prop else " no-failing-input-found"))
+            return 1
+        print("replay: the recorded case passes on the current tree (%d steps, %d inside listed classes)" % (len(case["steps"]), sum(len(v) for v in known.values())))
+        return 0
+    print("replay: %s records a finding of part %r (no single harness case); re-running the whole check" % (os.path.basename(path), rp.get("part", "?")))
+    return P.run(r)
+
+
 def shrink(P, c, m, prop, stdlib, h1, listed):
     """structural delta-debugging: drop analysed files / queries while the spec still
     rejects some implementation answer."""
